@@ -135,6 +135,7 @@ def run_tee(cfg, strategy, max_steps=6000):
                 s.ev('ilock_rel', '', 0)
             else:
                 s.ev('block_rel', '', self.boxid)
+            s.yield_point('lock.released')       # a fork can be preempted between releasing a lock and its next line
 
         __enter__ = acquire
 
